@@ -218,6 +218,9 @@ fn check(c: &Case, obs: &mut Obs) -> Verdict {
             Err(e) => return Verdict::Fail(format!("the model does not decode as a Hermes map: {e}")),
         }
     }
+    // maps a clone was taken from: they stay alive next to the clone the history goes on with, and have to keep
+    // answering for their own tokens whatever happens to the clone (and the other way round)
+    let mut aside: Vec<(String, SourceMap)> = vec![];
     for step in 0..=c.ops.len() {
         let pos = match invariant(&sm, &stage) {
             Ok(p) => p,
@@ -227,6 +230,19 @@ fn check(c: &Case, obs: &mut Obs) -> Verdict {
             Ok(s) => s,
             Err(e) => return Verdict::Fail(e),
         };
+        for (since, old) in aside.iter().rev().take(2) {
+            let what = format!("{stage}: the map a clone was taken from ({since})");
+            let r = invariant(old, &what).and_then(|p| lookups(old, &p, &c.random_queries, &what, obs).map(|_| ()));
+            if let Err(e) = r {
+                return Verdict::Fail(e);
+            }
+        }
+        if !aside.is_empty() {
+            // and the current map once more, now that the older ones have been queried
+            if let Err(e) = lookups(&sm, &pos, &c.random_queries, &format!("{stage} (again, after querying the older objects)"), obs) {
+                return Verdict::Fail(e);
+            }
+        }
         obs.class_if(st.exact_dup, "exact-hit-on-duplicated-position");
         obs.class_if(st.between, "between-tokens");
         obs.class_if(st.before_first, "before-first");
@@ -242,7 +258,8 @@ fn check(c: &Case, obs: &mut Obs) -> Verdict {
         match op {
             Op::CloneMap => {
                 obs.class("op:clone");
-                sm = sm.clone();
+                let copy = sm.clone();
+                aside.push((stage.clone(), std::mem::replace(&mut sm, copy)));
             }
             Op::SetSourceRoot(r) => {
                 obs.class("op:set_source_root");
@@ -314,7 +331,7 @@ fn histories(t: Tier) -> BoxedStrategy<Case> {
     let op = prop_oneof![
         6 => producer_for_regular(t).prop_map(Op::Produce),
         1 => prop_oneof![Just(None), pool_string(ROOT_POOL).prop_map(Some)].prop_map(Op::SetSourceRoot),
-        1 => Just(Op::CloneMap),
+        2 => Just(Op::CloneMap),
     ];
     (
         prop_oneof![2 => mm_strategy(p), 2 => dup_heavy(p)],
